@@ -96,6 +96,12 @@ func C19(x *Ctx) []Violation {
 					ok = true
 				}
 			}
+			// arguments are handled in order: an earlier, valid argument may be refused for a reason of its own
+			// (F-X: its methods clash with generated members) - that diagnostic names its mock and the member
+			if !ok && strings.HasPrefix(first, "cannot generate ") && strings.Contains(first, "would both be named") {
+				ok = true
+				x.Note("refused_earlier_argument_member_clash")
+			}
 			if !ok {
 				vs = append(vs, Violation{"C19", "diagnostic", fmt.Sprintf("moq %v: diagnostic %q does not name the offending type/stage (expected %q)", r.Argv, first, w)})
 			}
